@@ -45,6 +45,15 @@ Proof.
   cbn [map] in H. inversion H; subst. f_equal. apply IH; assumption.
 Qed.
 
+Lemma nth_error_ext' {X} (a b : list X) : (forall i, nth_error a i = nth_error b i) -> a = b.
+Proof.
+  revert b; induction a as [|x a IH]; intros [|y b] H; auto.
+  - specialize (H O); discriminate.
+  - specialize (H O); discriminate.
+  - pose proof (H O) as H0. cbn [nth_error] in H0. inversion H0; subst. f_equal.
+    apply IH. intro i. apply (H (S i)).
+Qed.
+
 (* ------------------------------------------------------------------ the cache *)
 Lemma lookup_set_entry c k e k' :
   lookup (set_entry c k e) k' = if N.eqb k k' then Some e else lookup c k'.
@@ -344,6 +353,13 @@ Section ProtocolProofs.
     unfold measure. cbn [init s_threads]. induction qss as [|qs r IH]; [reflexivity|].
     unfold list_sum in *. cbn [map fold_right]. rewrite IH. unfold t_measure. cbn [t_pc t_todo]. lia.
   Qed.
+
+  Theorem schedule_bounded_init c (qss : list (list Q)) sched (s : state) :
+    run (init c qss) sched = Some s ->
+    (length sched <= 4 * list_sum (map (@length Q) qss))%nat.
+  Proof.
+    intro H. pose proof (schedule_bounded sched _ _ H) as Hb. rewrite measure_init in Hb. lia.
+  Qed.
 End ProtocolProofs.
 
 (* ------------------------------------------------------------------ protocol: conditional part *)
@@ -614,3 +630,217 @@ Section ProtocolConditional.
           destruct (IH s1 s' Hinv Hp Hrun) as [l Hl] end. exists l. exact Hl.
   Qed.
 End ProtocolConditional.
+
+(* ------------------------------------------------------------------ the regex-manager body *)
+(* The Section hypotheses above are theorems for the modelled RegexManager: the answer is computed
+   THROUGH the cache (a cached regex is used when there is one), and is nevertheless the fresh
+   answer as long as the C06 invariant holds: a cached regex is the one compiled from the rule at
+   that key. *)
+Section RegexBodyProofs.
+  Variable compile : key -> N.
+  Variable is_match : N -> N -> bool.
+  Notation cache_ok := (cache_ok compile).
+  Notation use_key := (use_key compile is_match).
+  Notation rm_body := (rm_body compile is_match).
+
+  Lemma cache_ok_nil : cache_ok [].
+  Proof. intros k r H. discriminate. Qed.
+
+  Lemma cache_ok_discard c : cache_ok (discard_all c).
+  Proof. intros k r H. apply lookup_discard_all in H. discriminate. Qed.
+
+  Lemma cache_ok_set c k : cache_ok c -> cache_ok (set_entry c k (Compiled (compile k))).
+  Proof.
+    intros Hc k' r H. rewrite lookup_set_entry in H. destruct (N.eqb k k') eqn:E.
+    - apply N.eqb_eq in E; subst. inversion H; reflexivity.
+    - apply (Hc k' r H).
+  Qed.
+
+  Lemma use_key_ok u c acc k :
+    cache_ok c ->
+    cache_ok (fst (use_key u (c, acc) k)) /\
+    snd (use_key u (c, acc) k) = acc ++ [is_match (compile k) u].
+  Proof.
+    intro Hc. unfold C19_Model.use_key. cbn [fst snd].
+    destruct (lookup c k) as [[r|]|] eqn:Hl; cbn [fst snd].
+    - split; [exact Hc|]. rewrite (Hc k r Hl). reflexivity.
+    - split; [apply cache_ok_set; exact Hc|reflexivity].
+    - split; [apply cache_ok_set; exact Hc|reflexivity].
+  Qed.
+
+  Lemma fold_use_key_ok u ks : forall c acc,
+    cache_ok c ->
+    cache_ok (fst (fold_left (use_key u) ks (c, acc))) /\
+    snd (fold_left (use_key u) ks (c, acc)) = acc ++ map (fun k => is_match (compile k) u) ks.
+  Proof.
+    induction ks as [|k r IH]; intros c acc Hc; cbn [fold_left map].
+    - rewrite app_nil_r. auto.
+    - destruct (use_key_ok u c acc k Hc) as [H1 H2].
+      destruct (use_key u (c, acc) k) as [c1 acc1] eqn:E. cbn [fst snd] in H1, H2. subst acc1.
+      destruct (IH c1 (acc ++ [is_match (compile k) u]) H1) as [H3 H4].
+      split; [exact H3|]. rewrite H4, <- app_assoc. reflexivity.
+  Qed.
+
+  Lemma existsb_id_map {X} (f : X -> bool) l : existsb id (map f l) = existsb f l.
+  Proof. induction l as [|x l IH]; cbn [map existsb id]; [reflexivity|]. unfold id at 1. rewrite IH. reflexivity. Qed.
+
+  (* on a consistent cache the body never panics, keeps the cache consistent, and returns the
+     fresh answer *)
+  Theorem rm_body_fresh c q :
+    cache_ok c -> exists c', rm_body c q = Ok (c', fresh_answer compile is_match q) /\ cache_ok c'.
+  Proof.
+    intro Hc. unfold C19_Model.rm_body, rm_matches.
+    assert (Hc1 : cache_ok (if q_cleanup q then discard_all c else c))
+      by (destruct (q_cleanup q); [apply cache_ok_discard|exact Hc]).
+    destruct (fold_use_key_ok (q_url q) (q_touch q) _ [] Hc1) as [H1 H2].
+    eexists. split; [|exact H1]. rewrite H2. cbn [app]. rewrite existsb_id_map. reflexivity.
+  Qed.
+
+  Lemma rm_body_ok : forall c q, cache_ok c -> exists c' a, rm_body c q = Ok (c', a) /\ cache_ok c'.
+  Proof. intros c q Hc. destruct (rm_body_fresh c q Hc) as [c' [H1 H2]]. eauto. Qed.
+
+  Lemma rm_answer_cache_independent :
+    forall c1 c2 q c1' a1 c2' a2, cache_ok c1 -> cache_ok c2 ->
+      rm_body c1 q = Ok (c1', a1) -> rm_body c2 q = Ok (c2', a2) -> a1 = a2.
+  Proof.
+    intros c1 c2 q c1' a1 c2' a2 H1 H2 Hb1 Hb2.
+    destruct (rm_body_fresh c1 q H1) as [x [Hx _]]. destruct (rm_body_fresh c2 q H2) as [y [Hy _]].
+    rewrite Hx in Hb1. rewrite Hy in Hb2. inversion Hb1. inversion Hb2. congruence.
+  Qed.
+
+  Lemma seq_run_fresh qs : forall c, cache_ok c ->
+    exists c', seq_run rm_body c qs = Ok (c', map (fresh_answer compile is_match) qs).
+  Proof.
+    induction qs as [|q r IH]; intros c Hc; cbn [seq_run map]; [eauto|].
+    destruct (rm_body_fresh c q Hc) as [c1 [Hb Hc1]]. rewrite Hb.
+    destruct (IH c1 Hc1) as [c2 Hr]. rewrite Hr. eauto.
+  Qed.
+
+  (* the instance of interleaving_sequential that the correspondence replays: whatever the
+     schedule, the clock (q_cleanup) and the initial cache, a complete run gives every thread the
+     fresh answers *)
+  Theorem rm_interleaving_fresh c0 qss sched (s : state rq bool) :
+    cache_ok c0 -> run rm_body (init c0 qss) sched = Some s -> complete s = true ->
+    answers s = map (map (fresh_answer compile is_match)) qss /\
+    s_poisoned s = false /\ any_crashed s = false /\ cache_ok (s_cache s).
+  Proof.
+    intros H0 Hrun Hcomp.
+    pose proof (interleaving_sequential rq bool rm_body cache_ok rm_body_ok rm_answer_cache_independent
+                  c0 qss sched s H0 Hrun Hcomp c0 H0) as Hseq.
+    destruct (no_poison rq bool rm_body cache_ok rm_body_ok c0 qss sched s H0 Hrun) as [Hp [Hcr Hinv]].
+    split; [|auto].
+    apply nth_error_ext'. intro i. unfold answers.
+    destruct (nth_error qss i) as [qs|] eqn:Hq.
+    - destruct (Hseq i qs Hq) as [t [c' [Ht Hr]]].
+      destruct (seq_run_fresh qs c0 H0) as [c'' Hf]. rewrite Hf in Hr. inversion Hr.
+      erewrite map_nth_error by exact Ht. erewrite map_nth_error by exact Hq. congruence.
+    - assert (Hlen : length (s_threads s) = length qss).
+      { refine (run_invariant rq bool rm_body (fun s => length (s_threads s) = length qss) _ sched (init c0 qss) s _ Hrun).
+        - intros s0 j s1 Hl Hs. apply (step_inv rq bool rm_body) in Hs. destruct Hs as [t [_ Hk]].
+          destruct Hk; cbn [s_threads]; unfold upd; rewrite length_set_nth; exact Hl.
+        - cbn [init s_threads]. apply map_length. }
+      apply nth_error_None in Hq.
+      rewrite (proj2 (nth_error_None _ _)) by (rewrite map_length; lia).
+      rewrite (proj2 (nth_error_None _ _)) by (rewrite map_length; lia). reflexivity.
+  Qed.
+End RegexBodyProofs.
+
+(* the boolean invariant used by the correspondence cases is the Prop one *)
+Lemma cache_okb_sound tbl c : cache_okb tbl c = true -> cache_ok (compile_of tbl) c.
+Proof.
+  induction c as [|[k0 e0] c IH]; intros H k r Hl; [discriminate|].
+  cbn [cache_okb forallb fst snd] in H. apply andb_true_iff in H. destruct H as [H1 H2].
+  cbn [lookup] in Hl. destruct (N.eqb k0 k) eqn:E.
+  - apply N.eqb_eq in E; subst k0. inversion Hl; subst e0. apply N.eqb_eq in H1. exact H1.
+  - apply (IH H2 k r Hl).
+Qed.
+
+(* ------------------------------------------------------------------ examples *)
+(* two regex rules at keys 10 and 20 (regexes 1 and 2); requests 7 (matched by regex 1 only) and
+   8 (matched by nothing); two threads x two queries; a schedule in which thread 1 runs its first
+   critical section while thread 0 is between Release and its next Acquire. *)
+Definition ex_tbl : list (key * N) := [(10, 1); (20, 2)].
+Definition ex_mt : list (N * N) := [(1, 7)].
+Definition ex_body := rm_body (compile_of ex_tbl) (match_of ex_mt).
+Definition ex_qss : list (list rq) :=
+  [[mkQ QNetwork 7 [20; 10] false; mkQ QCsp 8 [10] true];
+   [mkQ QGenericHide 8 [20] true; mkQ QNetwork 7 [10] true]].
+Definition ex_sched : list nat := [0; 0; 0; 1; 1; 0; 1; 0; 0; 1; 0; 1; 1; 1; 1; 0]%nat.
+
+Example ex_run :
+  match run ex_body (init [] ex_qss) ex_sched with
+  | Some s => answers s = [[true; false]; [false; true]] /\ complete s = true /\
+              s_poisoned s = false /\ s_owner s = None /\
+              s_cache s = [(20, Discarded); (10, Compiled 1)]
+  | None => False
+  end.
+Proof. vm_compute. repeat split. Qed.
+
+(* the hypotheses of the conditional theorems are satisfiable: the generic theorem applied to the
+   example gives the sequential answers without running the schedule *)
+Example ex_hypotheses_satisfiable : forall s,
+  run ex_body (init [] ex_qss) ex_sched = Some s -> complete s = true ->
+  answers s = [[true; false]; [false; true]].
+Proof.
+  intros s Hrun Hc.
+  destruct (rm_interleaving_fresh (compile_of ex_tbl) (match_of ex_mt) [] ex_qss ex_sched s
+              (cache_ok_nil _) Hrun Hc) as [H _].
+  rewrite H. vm_compute. reflexivity.
+Qed.
+
+(* a disabled move: thread 1 cannot acquire while thread 0 holds the lock *)
+Example ex_blocked : run ex_body (init [] ex_qss) [0; 1]%nat = None.
+Proof. vm_compute. reflexivity. Qed.
+
+(* the cache invariant is needed: with a stale entry (key 10 holding the regex of another rule —
+   the F12 situation that RegexManager::clear() now prevents) the answer through the cache is
+   not the fresh answer *)
+Example ex_stale_cache_changes_answer :
+  exists c q, ~ cache_ok (compile_of ex_tbl) c /\
+    exists c', ex_body c q = Ok (c', negb (fresh_answer (compile_of ex_tbl) (match_of ex_mt) q)).
+Proof.
+  exists [(10, Compiled 2)], (mkQ QNetwork 7 [10] false). split.
+  - intro H. specialize (H 10 2 eq_refl). vm_compute in H. discriminate.
+  - eexists. vm_compute. reflexivity.
+Qed.
+
+(* a panicking body poisons the mutex and every later Acquire crashes its thread; the protocol
+   still never deadlocks (no_deadlock has no hypothesis on the body) *)
+Definition ex_panic_body (c : cache) (q : bool) : res (cache * bool) :=
+  if q then Panic "boom"%string else Ok (c, false).
+Example ex_poisoning :
+  match run ex_panic_body (init [] [[true]; [false]]) [0; 0; 1]%nat with
+  | Some s => s_poisoned s = true /\ s_owner s = None /\ any_crashed s = true /\ final s = true
+  | None => False
+  end.
+Proof. vm_compute. repeat split. Qed.
+
+(* ------------------------------------------------------------------ the lint table *)
+(* the translator's list of guard-holding query methods is the hand-written one, and every query
+   kind of the model goes through one of them *)
+Lemma lock_lint_table : c19_locked_query_fns = spec_locked_query_fns.
+Proof. reflexivity. Qed.
+
+Lemma query_kinds_locked : forall k, In (fn_of_kind k) c19_locked_query_fns.
+Proof. intros [ | | ]; vm_compute; tauto. Qed.
+
+Lemma lock_lint_rest :
+  c19_guarded_helpers = ["apply_removeparam"]%string /\
+  c19_mut_guard_fns = ["optimize"; "tags_with_set"]%string /\
+  c19_acquire_is_lock_unwrap = true /\
+  (forall f, In f c19_engine_query_entry -> f = "check"%string \/ In f c19_locked_query_fns).
+Proof.
+  repeat split. intros f Hf. vm_compute in Hf.
+  destruct Hf as [<-|[<-|[<-|[<-|[]]]]]; vm_compute; tauto.
+Qed.
+
+Lemma lock_lint_all :
+  c19_locked_query_fns = ["check_generic_hide"; "check_parameterised"; "get_csp_directives"]%string /\
+  (forall k, In (fn_of_kind k) c19_locked_query_fns) /\
+  c19_guarded_helpers = ["apply_removeparam"]%string /\
+  c19_mut_guard_fns = ["optimize"; "tags_with_set"]%string /\
+  c19_acquire_is_lock_unwrap = true.
+Proof.
+  split; [exact lock_lint_table|]. split; [exact query_kinds_locked|].
+  destruct lock_lint_rest as [H1 [H2 [H3 _]]]. auto.
+Qed.
